@@ -2418,30 +2418,10 @@ bool olc_db<Key, Value>::iterator::try_seek(art_key_type search_key,
           if (UNODB_DETAIL_UNLIKELY(
                   !node_critical_section.try_read_unlock()))  // unlock node
             return false;                                     // LCOV_EXCL_LINE
-          if (!empty()) pop();
-          while (!empty()) {
-            const auto& centry = top();
-            const auto cnode{centry.node};  // a possible parent from the stack.
-            auto c_critical_section(
-                node_ptr_lock(cnode).rehydrate_read_lock(centry.version));
-            if (UNODB_DETAIL_UNLIKELY(!c_critical_section.check()))
-              return false;  // LCOV_EXCL_LINE
-            auto* const icnode{cnode.template ptr<inode_type*>()};
-            const auto cnxt = icnode->next(
-                cnode.type(), centry.child_index);  // right-sibling.
-            if (cnxt) {
-              auto nchild = icnode->get_child(
-                  cnode.type(), centry.child_index);  // get the child
-              if (UNODB_DETAIL_UNLIKELY(
-                      !c_critical_section.check()))  // before using [nchild]
-                return false;                        // LCOV_EXCL_LINE
-              return try_left_most_traversal(nchild, c_critical_section);
-            }
-            pop();
-            if (UNODB_DETAIL_UNLIKELY(!c_critical_section.try_read_unlock()))
-              return false;  // LCOV_EXCL_LINE
-          }
-          return true;  // stack is empty (aka end()).
+          // The successor is under the next sibling of the path taken
+          // to this node (which has not been pushed): resume from the
+          // parent entry on the top of the stack.
+          return try_next();
         }
         const auto& tmp = nxt.value();  // unwrap.
         const auto child_index = tmp.child_index;
@@ -2474,30 +2454,10 @@ bool olc_db<Key, Value>::iterator::try_seek(art_key_type search_key,
         if (UNODB_DETAIL_UNLIKELY(
                 !node_critical_section.try_read_unlock()))  // unlock node
           return false;                                     // LCOV_EXCL_LINE
-        if (!empty()) pop();
-        while (!empty()) {
-          const auto& centry = top();
-          const auto cnode{centry.node};  // a possible parent from stack
-          auto c_critical_section(
-              node_ptr_lock(cnode).rehydrate_read_lock(centry.version));
-          if (UNODB_DETAIL_UNLIKELY(!c_critical_section.check()))
-            return false;  // LCOV_EXCL_LINE
-          auto* const icnode{cnode.template ptr<inode_type*>()};
-          const auto cnxt =
-              icnode->prior(cnode.type(), centry.child_index);  // left-sibling.
-          if (cnxt) {
-            auto nchild = icnode->get_child(
-                cnode.type(), centry.child_index);  // get the child
-            if (UNODB_DETAIL_UNLIKELY(
-                    !c_critical_section.check()))  // before using [nchild]
-              return false;                        // LCOV_EXCL_LINE
-            return try_right_most_traversal(nchild, c_critical_section);
-          }
-          pop();
-          if (UNODB_DETAIL_UNLIKELY(!c_critical_section.try_read_unlock()))
-            return false;  // LCOV_EXCL_LINE
-        }
-        return true;  // stack is empty (aka end()).
+        // The predecessor is under the previous sibling of the path
+        // taken to this node (which has not been pushed): resume from the
+        // parent entry on the top of the stack.
+        return try_prior();
       }
       const auto& tmp = nxt.value();  // unwrap.
       const auto child_index = tmp.child_index;
